@@ -14,7 +14,7 @@
 EXTENDS Snapshot, TraceBase
 
 VARIABLE S
-tvars == <<S, l, sid, used>>
+tvars == <<S, l, sid, used, failed>>
 
 Dump == Ev.obs.dump
 CountsOK(d) == d.nc = Len(d.nodes) /\ d.ec = Len(d.rels)
@@ -25,6 +25,7 @@ Positional(g) == [nodes |-> [i \in DOMAIN g.nodes |-> [id |-> i, labels |-> g.no
 
 TInit == S = [nodes |-> <<>>, rels |-> <<>>, nc |-> 0, ec |-> 0] /\ TBInit
 T_Reset == ResetBook /\ S' = [nodes |-> <<>>, rels |-> <<>>, nc |-> 0, ec |-> 0]
+T_Fail == FailBook /\ S' = [nodes |-> <<>>, rels |-> <<>>, nc |-> 0, ec |-> 0]
 
 \* the pre-existing store: must be the graph the script asked for
 T_Load == /\ IsEv("Load")
@@ -42,9 +43,11 @@ T_Import ==
           /\ ImportFail(S, Dump) /\ Dump.nc = S.nc /\ Dump.ec = S.ec
           /\ Same
        \/ /\ Ev.res = "err"
-          /\ KF_C13_MergedNodesKeepAdditions(S, Ev.snap, Ev.keys, Dump)
+          /\ \/ KF_C13_MergedNodesKeepAdditions(S, Ev.snap, Ev.keys, Dump)
+             \* a flipped byte may have changed the records that were applied before the checksum failed
+             \/ Ev.mode = "flip" /\ KF_C13_MergedNodesKeepAdditions_Unknown(S, Ev.keys, Dump)
           /\ KF("KF_C13_MergedNodesKeepAdditions")
 
-TNext == T_Reset \/ T_Load \/ T_Import
+TNext == T_Fail \/ T_Reset \/ T_Load \/ T_Import
 TSpec == TInit /\ [][TNext]_tvars
 =============================================================================
